@@ -128,6 +128,15 @@ class Translator(object):
             if isinstance(c, dict):
                 self.find_address_taken(c)
 
+    def find_struct_locals(self, n):
+        if n.get('kind') == 'VarDecl':
+            qt = n.get('type', {}).get('qualType', '')
+            if re.match(r'^(?:struct\s+)?[A-Z]\w*$', qt) and qt not in ('GType', 'GQuark'):
+                self.cells.discard(n.get('name'))
+        for c in n.get('inner', []) or []:
+            if isinstance(c, dict):
+                self.find_struct_locals(c)
+
     # -------------------------------------------------------------- expressions
     def expr(self, n):
         self.loc(n)
@@ -234,6 +243,12 @@ class Translator(object):
                 self.err('comma operator', n)
             if op == '=':
                 self.err('assignment as expression', n)
+            if op in ('+', '-') and self.is_struct_pointer(a) and not self.is_struct_pointer(b):
+                k = self.expr(b)
+                return call('__ptradd', self.expr(a), k if op == '+' else pyast.UnaryOp(op=pyast.USub(), operand=k))
+            if op in ('==', '!=', '<', '<=', '>', '>=') and self.is_struct_pointer(a) and self.is_struct_pointer(b):
+                cmpop = {'==': pyast.Eq, '!=': pyast.NotEq, '<': pyast.Lt, '<=': pyast.LtE, '>': pyast.Gt, '>=': pyast.GtE}[op]()
+                return call('__cbool', pyast.Compare(left=call('__ptrint', self.expr(a)), ops=[cmpop], comparators=[call('__ptrint', self.expr(b))]))
             table = {'+': pyast.Add, '-': pyast.Sub, '*': pyast.Mult, '%': pyast.Mod, '|': pyast.BitOr, '<<': pyast.LShift,
                      '>>': pyast.RShift}
             cmp = {'==': pyast.Eq, '!=': pyast.NotEq, '<': pyast.Lt, '<=': pyast.LtE, '>': pyast.Gt, '>=': pyast.GtE}
@@ -275,6 +290,11 @@ class Translator(object):
         if k == 'GNUNullExpr' or k == 'CXXNullPtrLiteralExpr':
             return const(None)
         self.err('expression', n)
+
+    def is_struct_pointer(self, n):
+        qt = self.qualtype(self.strip(n)) or self.qualtype(n)
+        m = re.match(r'^(?:const\s+)?(?:struct\s+)?(\w+)\s*\*$', qt)
+        return bool(m) and m.group(1) not in ('void', 'char', 'gchar', 'guchar', 'guint8', 'gint', 'int', 'GList', 'GSList')
 
     def is_pointer(self, n):
         qt = self.qualtype(n)
@@ -412,6 +432,13 @@ class Translator(object):
                 nm = d['name']
                 self.locals.add(nm)
                 init = [c for c in d.get('inner', []) if isinstance(c, dict) and c.get('kind') not in ('FullComment',)]
+                qt = d.get('type', {}).get('qualType', '')
+                if re.match(r'^(?:struct\s+)?[A-Z]\w*$', qt) and qt not in ('GType', 'GQuark') and not init:
+                    # a local struct variable: an object; &var is the object itself
+                    self.cells.discard(nm)
+                    self.struct_locals.add(nm)
+                    out.append(pyast.Assign(targets=[name(nm, pyast.Store())], value=call('__newstruct', const(qt.replace('struct ', '')))))
+                    continue
                 if nm in self.cells:
                     val = self.expr(init[0]) if init else const(0)
                     out.append(pyast.Assign(targets=[name(nm, pyast.Store())], value=call('__newcell', val)))
@@ -660,12 +687,14 @@ class Translator(object):
     def function(self):
         d = self.decl
         self.locals = set()
+        self.struct_locals = set()
         self.list_vars = set()
         self.loop_depth_in_switch = []
         params = [c for c in d['inner'] if c.get('kind') == 'ParmVarDecl']
         self.params = [p['name'] for p in params]
         body = [c for c in d['inner'] if c.get('kind') == 'CompoundStmt'][0]
         self.find_address_taken(body)
+        self.find_struct_locals(body)
         self.cells -= set(self.params)
         stmts = self.block(body)
         # list cursor ->data accesses were translated as  l.data : rewrite to the loop variable
